@@ -246,6 +246,7 @@ impl<T> ScopedJoinHandle<'_, T> {
     /// This might return `true` for a brief moment after the thread's main
     /// function has returned, but before the thread itself has stopped running.
     pub fn is_finished(&self) -> bool {
+        thread::switch();
         self.finished.load(Ordering::Relaxed)
     }
 }
